@@ -2,8 +2,8 @@
  * (m_vm1, m_gb1 and, for the linear model, m_gW1), with the right operand, exactly once, and on nothing else.
  * Tensors are ghost-versioned opaque values (DESIGN 4.2): each tensor operation bumps the version and records what was
  * done with which operand; scalar double arithmetic is uninterpreted (NV_FADD / NV_FDIV). */
-enum { NV_OP_NONE = 0, NV_OP_ZERO = 1, NV_OP_ADD = 2, NV_OP_DIV = 3 };
-struct nv_tens { uint64_t id, ver; int32_t op; uint64_t arg_id, arg_ver; double arg_val; };
+enum { NV_OP_NONE = 0, NV_OP_ZERO = 1, NV_OP_ADD = 2, NV_OP_DIV = 3, NV_OP_COPY = 4 };
+struct nv_tens { uint64_t id, ver; int32_t op; uint64_t arg_id, arg_ver; double arg_val; int64_t n; };
 struct nv_lacc { struct nv_tens m_outputs, m_vgrads, m_values; double m_vm1; struct nv_tens m_gb1, m_gW1; };
 struct nv_gacc { double m_vm1; struct nv_tens m_gb1; };
 /* assumed contracts of the tensor operations: t.zero() / t.array() = 0 ; t += o ; t /= v (coefficient-wise, Eigen) */
@@ -43,3 +43,25 @@ __CPROVER_ensures(__CPROVER_return_value == self)
 __CPROVER_requires(NV_ACC_FRESH) __CPROVER_assigns(self->m_vm1, self->m_gb1) \
 __CPROVER_ensures(NV_SAME(self->m_vm1, NV_FDIV(__CPROVER_old(self->m_vm1), (double)samples)) && NV_T_DIVIDED(m_gb1)) \
 __CPROVER_ensures(__CPROVER_return_value == self)
+
+/* gboost::accumulator_t::update(values): m_vm1 += sum of the given loss values; vgrad(gx): returns m_vm1 and, when a gradient
+ * is requested (gx not empty), copies m_gb1 into gx -- nothing else */
+uint64_t nv_sum_calls, nv_sum_of; double nv_sum_ret;
+static double nv_t_sum(const struct nv_tens* t) { nv_sum_calls = nv_sum_calls + 1; nv_sum_of = t->id; nv_sum_ret = nv_nondet_double(); return nv_sum_ret; }
+static struct nv_tens* nv_t_copy(struct nv_tens* dst, const struct nv_tens* src)
+{ dst->ver = dst->ver + 1; dst->op = NV_OP_COPY; dst->arg_id = src->id; dst->arg_ver = src->ver; dst->arg_val = 0.0; return dst; }
+#define NV_CONTRACT_gboost_acc_update \
+__CPROVER_requires(NV_ACC_FRESH && __CPROVER_is_fresh(values, sizeof(*values)) && nv_sum_calls == 0) __CPROVER_assigns(self->m_vm1, nv_sum_calls, nv_sum_of, nv_sum_ret) \
+__CPROVER_ensures(nv_sum_calls == 1 && nv_sum_of == values->id && NV_SAME(self->m_vm1, NV_FADD(__CPROVER_old(self->m_vm1), nv_sum_ret)))
+struct nv_tens nv_gx_store;      /* the storage the map gx views (a map passed by value shares it) */
+uint64_t nv_gx_id;
+static struct nv_tens* nv_t_copy_to_gx(struct nv_tens* dst, const struct nv_tens* src)
+{
+  __CPROVER_assert(dst->id == nv_gx_id, "vgrad: the gradient is written into the caller's buffer gx");
+  return nv_t_copy(&nv_gx_store, src);
+}
+#define NV_CONTRACT_gboost_acc_vgrad \
+__CPROVER_requires(NV_ACC_FRESH && gx.n >= 0 && nv_gx_id == gx.id) __CPROVER_assigns(nv_gx_store) \
+__CPROVER_ensures(NV_SAME(__CPROVER_return_value, self->m_vm1)) \
+__CPROVER_ensures(gx.n > 0 ? (nv_gx_store.op == NV_OP_COPY && nv_gx_store.arg_id == self->m_gb1.id && nv_gx_store.arg_ver == self->m_gb1.ver && nv_gx_store.ver == __CPROVER_old(nv_gx_store.ver) + 1) \
+                           : nv_gx_store.ver == __CPROVER_old(nv_gx_store.ver))
